@@ -195,6 +195,10 @@ pub enum Variant {
     NoIndex,
     /// join operands permuted; the number seeds the permutation
     Permuted(u64),
+    /// every table replaced by a derived table `(SELECT <its columns, permuted> FROM t [WHERE …]) AS r`; for a single
+    /// table the first conjuncts of WHERE move inside (Filter over Project over Filter: filter push-down through a
+    /// projection, filter merge)
+    Derived(u64),
 }
 
 fn is_int(t: Ty) -> bool {
@@ -406,6 +410,69 @@ fn sql_from_permuted(
     }
 }
 
+/// FROM clause with derived tables; returns the conjuncts of a single-table WHERE that stay outside
+fn sql_from_derived(
+    f: &From,
+    db: &[Table],
+    seed: u64,
+    where_: &Option<E>,
+    col: &dyn Fn(usize) -> String,
+) -> (String, Option<Vec<E>>) {
+    let mut rng = Rng::new(seed);
+    let mut derived = |t: usize, k: usize, inner: Option<String>| -> String {
+        let n = db.get(t).map(|t| t.tys.len()).unwrap_or(0);
+        let mut order: Vec<usize> = (0..n).collect();
+        rng.shuffle(&mut order);
+        let cols: Vec<String> = order.iter().map(|c| format!("c{}", c)).collect();
+        match inner {
+            Some(w) => format!("(SELECT {} FROM t{} WHERE {}) AS r{}", cols.join(", "), t, w, k),
+            None => format!("(SELECT {} FROM t{}) AS r{}", cols.join(", "), t, k),
+        }
+    };
+    match f {
+        From::Table(t) => {
+            // single table: the first half of the conjuncts (at least one) is applied inside the derived table
+            let mut outside = None;
+            let mut inner = None;
+            if let Some(w) = where_ {
+                let mut cs = Vec::new();
+                conjuncts(w, &mut cs);
+                let k = cs.len().div_ceil(2);
+                let plain = |i: usize| format!("c{}", i);
+                inner = conj(cs[..k].to_vec()).map(|e| sql_expr(&e, 1, &plain));
+                outside = Some(cs[k..].to_vec());
+            }
+            (derived(*t, 0, inner), outside)
+        }
+        _ => {
+            fn go(
+                f: &From,
+                next: &mut usize,
+                derived: &mut dyn FnMut(usize, usize, Option<String>) -> String,
+                col: &dyn Fn(usize) -> String,
+            ) -> String {
+                match f {
+                    From::Table(t) => {
+                        let s = derived(*t, *next, None);
+                        *next += 1;
+                        s
+                    }
+                    From::Join(k, l, r, on) => {
+                        let ls = go(l, next, derived, col);
+                        let rs = go(r, next, derived, col);
+                        match on {
+                            Some(e) => format!("{} {} {} ON {}", ls, join_kw(k), rs, sql_expr(e, 1, col)),
+                            None => format!("{} {} {}", ls, join_kw(k), rs),
+                        }
+                    }
+                }
+            }
+            let mut next = 0;
+            (go(f, &mut next, &mut derived, col), None)
+        }
+    }
+}
+
 /// SQL text of a SELECT in the given form; `None` if the form does not exist for this query
 pub fn select_sql(q: &Select, db: &[Table], ixs: &[Ix], v: Variant) -> Option<String> {
     let (ls, w) = leaves_of(&q.from, db);
@@ -420,8 +487,14 @@ pub fn select_sql(q: &Select, db: &[Table], ixs: &[Ix], v: Variant) -> Option<St
         }
     }
     let col = col_printer(&ls, db, ixs, wrap);
+    let mut where_override: Option<Vec<E>> = None;
     let (from_sql, extra_where) = match v {
         Variant::Permuted(seed) => sql_from_permuted(&q.from, db, seed, &col)?,
+        Variant::Derived(seed) => {
+            let (s, outside) = sql_from_derived(&q.from, db, seed, &q.where_, &col);
+            where_override = outside;
+            (s, vec![])
+        }
         _ => {
             let mut next = 0;
             (sql_from_plain(&q.from, &mut next, &col), vec![])
@@ -448,7 +521,7 @@ pub fn select_sql(q: &Select, db: &[Table], ixs: &[Ix], v: Variant) -> Option<St
                 // `*` of a permuted FROM would list the columns in another order: name them.  (Never wrapped.)
                 let plain = col_printer(&ls, db, ixs, false);
                 out_exprs = (0..w).map(&plain).collect();
-                if matches!(v, Variant::Permuted(_)) { out_exprs.join(", ") } else { "*".to_string() }
+                if matches!(v, Variant::Permuted(_) | Variant::Derived(_)) { out_exprs.join(", ") } else { "*".to_string() }
             }
             Some(es) => {
                 out_exprs = es.iter().map(|e| sql_expr(e, 1, &col)).collect();
@@ -458,8 +531,13 @@ pub fn select_sql(q: &Select, db: &[Table], ixs: &[Ix], v: Variant) -> Option<St
     };
     let mut sql = format!("SELECT {}{} FROM {}", if q.distinct { "DISTINCT " } else { "" }, items, from_sql);
     let mut wh: Vec<E> = Vec::new();
-    if let Some(e) = &q.where_ {
-        wh.push(e.clone());
+    match where_override {
+        Some(outside) => wh.extend(outside),
+        None => {
+            if let Some(e) = &q.where_ {
+                wh.push(e.clone());
+            }
+        }
     }
     wh.extend(extra_where);
     if let Some(e) = conj(wh) {
@@ -633,13 +711,7 @@ static SEQ: std::sync::atomic::AtomicU64 = std::sync::atomic::AtomicU64::new(0);
 /// `CREATE INDEX` prints a line on the process' stdout (a left-over debug `println!`), which is the protocol channel
 /// of `axh exec`: file descriptor 1 points to /dev/null while such a statement runs.
 fn with_stdout_muted<T>(f: impl FnOnce() -> T) -> T {
-    if GEN_MODE.load(std::sync::atomic::Ordering::SeqCst) {
-        return f();
-    }
-    mute_all(f)
-}
 
-fn mute_all<T>(f: impl FnOnce() -> T) -> T {
     use std::io::Write;
     let _ = std::io::stdout().flush();
     unsafe {
@@ -756,6 +828,7 @@ fn variant_name(v: Variant) -> &'static str {
         Variant::AsWritten => "a",
         Variant::NoIndex => "b",
         Variant::Permuted(_) => "c",
+        Variant::Derived(_) => "f",
     }
 }
 
@@ -874,7 +947,12 @@ pub fn run_case(line: &str, run_queries: bool) -> Outcome {
                 outs.push(o);
             }
             Op::Stmt(Stmt::Select(q)) => {
-                let forms = [Variant::AsWritten, Variant::NoIndex, Variant::Permuted(seed ^ opno as u64)];
+                let forms = [
+                    Variant::AsWritten,
+                    Variant::NoIndex,
+                    Variant::Permuted(seed ^ opno as u64),
+                    Variant::Derived(seed ^ opno as u64 ^ 0x5bd1e995),
+                ];
                 let mut results: Vec<(String, String)> = Vec::new(); // (form name, canonical result)
                 let mut digs: Vec<(String, String)> = Vec::new();
                 let sql_a = select_sql(q, &tables, &ixs, Variant::AsWritten).unwrap_or_default();
@@ -921,7 +999,7 @@ pub fn run_case(line: &str, run_queries: bool) -> Outcome {
                     if d.contains("IndexScan") {
                         bump("uses.index-scan", 1);
                     }
-                    for j in ["HashJoin", "MergeJoin", "NestedLoopJoin"] {
+                    for j in ["HashJoin", "MergeJoin", "NLJoin"] {
                         if d.contains(j) {
                             bump(&format!("uses.{}", j), 1);
                         }
@@ -1017,7 +1095,12 @@ fn show_sql(line: &str) -> String {
     for (i, op) in ops.iter().enumerate() {
         match op {
             Op::Stmt(Stmt::Select(q)) => {
-                for v in [Variant::AsWritten, Variant::NoIndex, Variant::Permuted(case_seed(line) ^ i as u64)] {
+                for v in [
+                    Variant::AsWritten,
+                    Variant::NoIndex,
+                    Variant::Permuted(case_seed(line) ^ i as u64),
+                    Variant::Derived(case_seed(line) ^ i as u64 ^ 0x5bd1e995),
+                ] {
                     if let Some(s) = select_sql(q, &tables, &ixs, v) {
                         out.push(format!("[{}] {}", variant_name(v), s));
                     }
@@ -1031,9 +1114,6 @@ fn show_sql(line: &str) -> String {
 }
 
 // ------------------------------------------------------------------------------------------------ generation
-
-/// While the generator measures plan diversity on several threads, stdout is muted once for the whole phase.
-static GEN_MODE: std::sync::atomic::AtomicBool = std::sync::atomic::AtomicBool::new(false);
 
 const TEXTS: [&str; 14] = ["a", "ab", "abc", "b", "ba", "bb", "c", "ca", "d", "x", "xy", "y", "zz", "m"];
 
@@ -1289,10 +1369,21 @@ impl<'a> G<'a> {
                     }
                 }
             }
+            // NULLs in indexed columns other than c0 (such rows have no index entry; NULL never collides), in some tables
+            let null_keys = self.region != Region::MixedKey && self.rng.chance(1, 3);
+            if null_keys && uniq.len() > 1 {
+                self.tag("ix.null-keys");
+            }
             let mut rows = Vec::new();
             for i in 0..nrows {
                 let row: Vec<Val> = (0..ncols)
-                    .map(|c| if uniq.contains(&c) { pools[&c][i].clone() } else { self.plain_val(tys[c], true) })
+                    .map(|c| {
+                        if uniq.contains(&c) {
+                            if c != 0 && null_keys && self.rng.chance(1, 5) { Val::Null } else { pools[&c][i].clone() }
+                        } else {
+                            self.plain_val(tys[c], true)
+                        }
+                    })
                     .collect();
                 rows.push(row);
             }
@@ -1316,7 +1407,15 @@ impl<'a> G<'a> {
 
     fn new_row(&mut self, t: usize) -> Vec<Val> {
         let tys = self.db[t].tys.clone();
-        (0..tys.len()).map(|c| if self.uniq[t].contains(&c) { self.fresh_val(t, c) } else { self.plain_val(tys[c], true) }).collect()
+        (0..tys.len())
+            .map(|c| {
+                if self.uniq[t].contains(&c) {
+                    if c != 0 && self.region != Region::MixedKey && self.rng.chance(1, 10) { Val::Null } else { self.fresh_val(t, c) }
+                } else {
+                    self.plain_val(tys[c], true)
+                }
+            })
+            .collect()
     }
 
     /// an existing value of column c of table t (or a made-up one)
@@ -1674,7 +1773,49 @@ impl<'a> G<'a> {
         }
     }
 
+    /// `(A JOIN B ON p(A) AND q(B) [AND A θ B]) JOIN C ON B.x = C.y`: the shape join associativity rewrites into
+    /// `A JOIN (B JOIN C)` — the one-sided conjuncts of the inner condition must end up in the right place
+    fn from_assoc_bait(&mut self) -> Option<From> {
+        let nt = self.db.len();
+        let size = |g: &Self, t: usize| (g.cur[t].len() + 8) as u64;
+        let pick3: Vec<usize> = (0..3).map(|_| self.rng.below(nt as u64) as usize).collect();
+        if pick3.iter().map(|t| size(self, *t)).product::<u64>() > 30_000 {
+            return None;
+        }
+        let (ta, tb, tc) = (pick3[0], pick3[1], pick3[2]);
+        let (wa, wb) = (self.db[ta].tys.len(), self.db[tb].tys.len());
+        let ints = |g: &Self, t: usize, off: usize| -> Vec<usize> {
+            (0..g.db[t].tys.len()).filter(|c| is_int(g.db[t].tys[*c])).map(|c| off + c).collect()
+        };
+        let (ia, ib, ic) = (ints(self, ta, 0), ints(self, tb, wa), ints(self, tc, wa + wb));
+        let mut inner: Vec<E> = Vec::new();
+        let ca = self.rng.below(wa as u64) as usize;
+        inner.push(self.atom(ca, ta, ca));
+        let cb = self.rng.below(wb as u64) as usize;
+        inner.push(self.atom(wa + cb, tb, cb));
+        if self.rng.chance(1, 3) {
+            inner.push(cmp(*self.rng.pick(&["lt", "le", "ne", "ge"]), E::Col(*self.rng.pick(&ia)), E::Col(*self.rng.pick(&ib))));
+        }
+        if self.rng.chance(1, 2) {
+            inner.reverse();
+        }
+        let mut outer = vec![cmp("eq", E::Col(*self.rng.pick(&ib)), E::Col(*self.rng.pick(&ic)))];
+        if self.rng.chance(1, 4) {
+            let cc = self.rng.below(self.db[tc].tys.len() as u64) as usize;
+            outer.push(self.atom(wa + wb + cc, tc, cc));
+        }
+        self.tag("join.assoc-bait");
+        self.tag("join.inner");
+        let ab = From::Join("inner", b2(From::Table(ta)), b2(From::Table(tb)), conj(inner));
+        Some(From::Join("inner", b2(ab), b2(From::Table(tc)), conj(outer)))
+    }
+
     fn from(&mut self) -> From {
+        if self.rng.chance(1, 10) {
+            if let Some(f) = self.from_assoc_bait() {
+                return f;
+            }
+        }
         let nt = self.db.len();
         let n = *self.rng.pick(&[1usize, 1, 1, 2, 2, 2, 3]);
         let t0 = self.rng.below(nt as u64) as usize;
@@ -1959,27 +2100,62 @@ fn gen_case(rng: &mut Rng) -> (String, BTreeSet<String>) {
 
 fn gen_all(rng: &mut Rng, tier: Tier) -> Vec<Case> {
     let n = match tier {
-        Tier::Quick => 320,
-        Tier::Thorough => 3200,
+        Tier::Quick => 900,
+        Tier::Thorough => 9000,
     };
     let lines: Vec<(String, BTreeSet<String>)> = (0..n).map(|_| gen_case(rng)).collect();
-    // measure, on the real planner, how often the forms of a query really get different plans (EXPLAIN only)
-    GEN_MODE.store(true, std::sync::atomic::Ordering::SeqCst);
-    let facts: Vec<BTreeMap<String, usize>> = mute_all(|| {
-        let chunk = lines.len().div_ceil(8).max(1);
-        let mut out: Vec<Vec<BTreeMap<String, usize>>> = Vec::new();
-        std::thread::scope(|s| {
-            let hs: Vec<_> = lines
-                .chunks(chunk)
-                .map(|sl| s.spawn(move || sl.iter().map(|(l, _)| run_case(l, false).facts).collect::<Vec<_>>()))
-                .collect();
-            for h in hs {
-                out.push(h.join().unwrap_or_default());
+    // Measure, on the real planner, how often the forms of a query really get different plans (EXPLAIN only).  The
+    // engine runs in supervised children (`axh run plan` on `measure <case>` lines) so that a hang or a crash of the
+    // code under test costs measurements, not the generation: after a batch that is mostly lost, measuring stops.
+    let mut facts: Vec<BTreeMap<String, usize>> = Vec::new();
+    let exe = std::env::current_exe().ok();
+    let dir = std::env::temp_dir().join(format!("axh-plan-measure-{}", std::process::id()));
+    let _ = std::fs::create_dir_all(&dir);
+    for (bno, batch) in lines.chunks(150).enumerate() {
+        let Some(exe) = exe.as_ref() else { break };
+        let cf = dir.join(format!("b{}.cases", bno));
+        let of = dir.join(format!("b{}.out", bno));
+        let text: String = batch.iter().map(|(l, _)| format!("measure {}\n", l)).collect();
+        if std::fs::write(&cf, text).is_err() {
+            break;
+        }
+        let ok = std::process::Command::new(exe)
+            .args(["run", "plan", "--cases"])
+            .arg(&cf)
+            .arg("--out")
+            .arg(&of)
+            .args(["--jobs", "8"])
+            .env("AXH_PLAN_TIMEOUT_MS", "8000")
+            .stdout(std::process::Stdio::null())
+            .status()
+            .map(|s| s.success())
+            .unwrap_or(false);
+        let outs: Vec<String> = if ok { std::fs::read_to_string(&of).unwrap_or_default().lines().map(|l| l.to_string()).collect() } else { vec![] };
+        let mut lost = 0;
+        for k in 0..batch.len() {
+            let mut f = BTreeMap::new();
+            match outs.get(k).and_then(|o| o.strip_prefix("facts")) {
+                Some(rest) => {
+                    for kv in rest.split_whitespace() {
+                        if let Some((a, b)) = kv.split_once('=') {
+                            if let Ok(n) = b.parse::<usize>() {
+                                f.insert(a.to_string(), n);
+                            }
+                        }
+                    }
+                }
+                None => {
+                    lost += 1;
+                    f.insert("unmeasured".to_string(), 1);
+                }
             }
-        });
-        out.into_iter().flatten().collect()
-    });
-    GEN_MODE.store(false, std::sync::atomic::Ordering::SeqCst);
+            facts.push(f);
+        }
+        if lost * 2 > batch.len() {
+            break;
+        }
+    }
+    let _ = std::fs::remove_dir_all(&dir);
     lines
         .into_iter()
         .enumerate()
@@ -2013,11 +2189,18 @@ impl Engine for PlanEngine {
             return show_sql(rest);
         }
         install_worker_panic_recorder();
+        if let Some(rest) = line.strip_prefix("measure ") {
+            let o = run_case(rest, false);
+            if o.line.starts_with("bad-op") || o.line.starts_with("setup-failed") {
+                return "nofacts".into();
+            }
+            return format!("facts {}", o.facts.iter().map(|(k, v)| format!("{}={}", k, v)).collect::<Vec<_>>().join(" "));
+        }
         run_case(line, true).line
     }
 
     fn timeout_ms(&self) -> u64 {
-        60_000
+        std::env::var("AXH_PLAN_TIMEOUT_MS").ok().and_then(|v| v.parse().ok()).unwrap_or(20_000)
     }
 }
 
